@@ -360,9 +360,9 @@ def tphifLoop (E : Ell α) (txi stol : α) : Nat → α → α
     let tphi' := tphi + dtphi
     if !(RealLike.leb stol (RealLike.abs dtphi)) then tphi' else tphifLoop E txi stol n tphi'
 
-/-- `AlbersEqualArea::tphif(txi)` (`numit_ = 5`, `tol_ = sqrt(eps)`) -/
+/-- `AlbersEqualArea::tphif(txi)` (`numit_ = 50` since 707b423, `tol_ = sqrt(eps)`) -/
 def tphif (E : Ell α) (txi : α) : α :=
-  tphifLoop E txi ((sqrtEps : α) * fmax (1 : α) (RealLike.abs txi)) 5 txi
+  tphifLoop E txi ((sqrtEps : α) * fmax (1 : α) (RealLike.abs txi)) 50 txi
 
 /-- did the Newton loop of `tphif` stop by its tolerance (and not by the silent iteration cap `numit_ = 5`)? -/
 def tphifLoopConv (E : Ell α) (txi stol : α) : Nat → α → Bool
@@ -376,7 +376,7 @@ def tphifLoopConv (E : Ell α) (txi stol : α) : Nat → α → Bool
     if !(RealLike.leb stol (RealLike.abs dtphi)) then true else tphifLoopConv E txi stol n (tphi + dtphi)
 
 def tphifConv (E : Ell α) (txi : α) : Bool :=
-  tphifLoopConv E txi ((sqrtEps : α) * fmax (1 : α) (RealLike.abs txi)) 5 txi
+  tphifLoopConv E txi ((sqrtEps : α) * fmax (1 : α) (RealLike.abs txi)) 50 txi
 
 /-- exponent `e` with `|x|·2^e ∈ [1/2, 1)` for `0 < |x| < 1/2` (`frexp`) -/
 def frexpNeg (ax : α) : Nat → Nat → Nat
@@ -491,7 +491,8 @@ def DDatanhee (E : Ell α) (x0 y0 : α) : α :=
   let x := if sw then y0 else x0
   let y := if sw then x0 else y0
   let q1 := RealLike.abs E.e2
-  let q2 := RealLike.abs ((2 : α) * E.e / E.e2m * ((1 : α) - x))
+  -- (for `e² < 0` the factor is `1 + e`: the usable range of `DDatanhee2` shrinks by its cancellation, e5ca000)
+  let q2 := RealLike.abs ((if RealLike.ltb E.f (0 : α) then (1 : α) + E.e else (2 : α)) * E.e / E.e2m * ((1 : α) - x))
   if RealLike.leb x (0 : α) || !(RealLike.ltb (RealLike.min q1 q2) (RealLike.ofDec 75 2)) then DDatanhee0 E x y
   else if RealLike.ltb q1 q2 then DDatanhee1 E x y else DDatanhee2 E x y
 
@@ -541,12 +542,21 @@ def albNewtonStep (E : Ell α) (s sm1 tphi0 : α) : α :=
   let r := albNewtonU E s sm1 tphi0 (atanhxm1 (albNewtonArg E tphi0))
   (0 : α) - r.1 / r.2.1 * r.2.2
 
-def albNewtonLoop (E : Ell α) (s sm1 stol : α) : Nat → α → α
-  | 0, tphi0 => tphi0
-  | n + 1, tphi0 =>
-    let dtu := albNewtonStep E s sm1 tphi0
-    let tphi0' := tphi0 + dtu
-    if !(RealLike.leb stol (RealLike.abs dtu)) then tphi0' else albNewtonLoop E s sm1 stol n tphi0'
+/-- the Newton loop of `Init` with the safeguard of cc09272: a step that does not decrease `|u|` is halved (`hasPrev` is false
+    before the first iterate, where the code holds `uprev = ∞`) -/
+def albNewtonLoop (E : Ell α) (s sm1 stol : α) : Nat → Bool → α → α → α → α → α
+  | 0, _, _, _, _, tphi0 => tphi0
+  | n + 1, hasPrev, tprev, uprev, dtprev, tphi0 =>
+    let r := albNewtonU E s sm1 tphi0 (atanhxm1 (albNewtonArg E tphi0))
+    let u := r.1
+    let dtu := (0 : α) - u / r.2.1 * r.2.2
+    if hasPrev && RealLike.ltb (RealLike.abs uprev) (RealLike.abs u) then
+      let dtp := dtprev / 2
+      let t' := tprev + dtp
+      if RealLike.leb stol (RealLike.abs dtp) then albNewtonLoop E s sm1 stol n true tprev uprev dtp t' else t'
+    else
+      let t' := tphi0 + dtu
+      if !(RealLike.leb stol (RealLike.abs dtu)) then t' else albNewtonLoop E s sm1 stol n true tphi0 u dtu t'
 
 /-- `(1 − sxi)/(1 − sphi)`-type factor of `Init`: `sphi <= 0 ? (1 − sxi)/(1 − sphi) : (cxi/cphi)²(1 + sphi)/(1 + sxi)` -/
 def albRatio (sphi cphi sxi cxi : α) : α :=
@@ -616,7 +626,7 @@ def albInit (E : Ell α) (sphi1 cphi1 sphi2 cphi2 k1 : α) : ALB α :=
       let tphi0 := (tphi2 + tphi1) / 2
       let tol0 : α := (sqrtEps : α) * RealLike.sqrt (sqrtEps : α)
       let stol := tol0 * fmax (1 : α) (RealLike.abs tphi0)
-      (albNewtonLoop E s sm1 stol 40 tphi0, C)
+      (albNewtonLoop E s sm1 stol 40 false tphi0 (0 : α) (0 : α) tphi0, C)
   let txi0 := txif E tphi0
   let scxi0 := hyp txi0
   let sxi0 := txi0 / scxi0
